@@ -11,6 +11,8 @@ void h_expand(void) {
   if (r) __CPROVER_assert(0, "canary: expand_output_buffer can succeed");
   if (!r) __CPROVER_assert(0, "canary: expand_output_buffer can refuse");
 }
+void h_has_remaining(void) { size_t *st; int r = k_has_remaining(st, nondet_size_t());
+  if (r) __CPROVER_assert(0, "canary: has_remaining can be true"); if (!r) __CPROVER_assert(0, "canary: has_remaining can be false"); }
 #define SMALL(x, n) __CPROVER_assume((x) <= (n))
 #define MS_H(SUF, T) \
 void hs_write_object_##SUF(void) { size_t *st; unsigned char *buf; T *t; g_mw = nondet_size_t(); size_t b = nondet_size_t(), m = nondet_size_t(); SMALL(b, 32); SMALL(m, 64); \
